@@ -161,16 +161,34 @@ func checkVotingPowers(c *core.Ctx, rule string) {
 		return
 	}
 	var weigh, count ssa.Instruction
-	for _, b := range fn.Blocks {
-		for _, in := range b.Instrs {
-			switch x := in.(type) {
-			case *ssa.MapUpdate:
-				if strings.HasSuffix(core.Path(x.Map), ".validatorsPowers") {
-					weigh = x
+	// the two stores may sit in a helper that calculatePowers calls per validator; the condition
+	// they are made under is then the one governing that call
+	at := map[ssa.Instruction]ssa.Instruction{}
+	for _, g := range append([]*ssa.Function{fn}, c.Helpers(fn)...) {
+		var site ssa.Instruction
+		if g != fn {
+			for _, s := range core.Sites(fn) {
+				if s.Common.StaticCallee() == g {
+					site = s.Instr
 				}
-			case *ssa.Call:
-				if core.CalleeName(core.NormCall(&x.Call)) == "(*math/big.Int).Add" && strings.HasSuffix(core.Path(core.NormCall(&x.Call).Args[0]), ".totalPower") {
-					count = x
+			}
+			if site == nil {
+				continue
+			}
+		}
+		for _, b := range g.Blocks {
+			for _, in := range b.Instrs {
+				switch x := in.(type) {
+				case *ssa.MapUpdate:
+					if strings.HasSuffix(core.Path(x.Map), ".validatorsPowers") {
+						weigh = x
+						at[x] = site
+					}
+				case *ssa.Call:
+					if core.CalleeName(core.NormCall(&x.Call)) == "(*math/big.Int).Add" && strings.HasSuffix(core.Path(core.NormCall(&x.Call).Args[0]), ".totalPower") {
+						count = x
+						at[x] = site
+					}
 				}
 			}
 		}
@@ -200,8 +218,14 @@ func checkVotingPowers(c *core.Ctx, rule string) {
 		}
 		return notDrop, pres
 	}
-	wd, wp := present(weigh)
-	cd, cp := present(count)
+	where := func(in ssa.Instruction) ssa.Instruction {
+		if s := at[in]; s != nil {
+			return s
+		}
+		return in
+	}
+	wd, wp := present(where(weigh))
+	cd, cp := present(where(count))
 	c.Check(wd && wp && cd && cp, rule, "calculatePowers/same-condition", weigh.Pos(), "a validator's stake enters the vote-weight table and the total power under the same `not dropped ∧ present` condition",
 		fmt.Sprintf("vote weights and the quorum base are filled under different conditions (weight: not-dropped=%v present=%v; total: not-dropped=%v present=%v): an absent validator's earlier vote still counts while its stake is missing from the total", wd, wp, cd, cp))
 }
